@@ -34,7 +34,7 @@ CONSTANTS C, D, Rt,       \* components, features, dimension of w (1 or 2)
           Floor,          \* variance floor handed to the machine (a positive rational)
           Affs,           \* feature maps x -> a x + b as pairs <<a, b>> of rationals, a # 0
           Dev,            \* named deviations switched on
-          Bw, Ba          \* scope of the 32-bit model: bounds on |num|, den of i-vectors / accumulators
+          Bw, Ba, Bt      \* scope of the 32-bit model: bounds on |num|, den of i-vectors / accumulators / new T
 
 ASSUME Rt \in {1, 2} /\ IsPos(Floor)
 
@@ -101,11 +101,11 @@ Project ==
     /\ UNCHANGED <<scn, acc, newT, newSg>>
 
 \* module-level e_step over the list of statistics
-\* Scope of the exact model: TLC integers are 32 bit, so a scenario whose exact i-vectors (accumulators)
-\* have large numerators or denominators is followed up to the projection (the E-step) only.
-EScope == \A i \in SI, t \in TI : Small(w[i][t], Bw)
-MScope == /\ \A c \in CI, t \in TI, u \in TI : Small(acc.nww[c][t][u], Ba)
-          /\ \A c \in CI, d \in DI, t \in TI : Small(acc.fw[c][d][t], Ba)
+\* Scope of the exact model: TLC integers are 32 bit, so a scenario whose exact i-vectors (accumulators,
+\* new T) have large numerators or denominators is followed up to the projection (the E-step) only.
+\* Conjunctions are evaluated left to right, so each stage is computed only when the previous one is small.
+EScope == /\ \A i \in SI, t \in TI : Small(w[i][t], Bw)
+          /\ \A i \in SI : Small(Det(Prec(scn.T, scn.sg, scn.stats[i])), Bw)
 EStep ==
     /\ phase = "p" /\ phase' = "e" /\ EScope
     /\ LET pinv == [i \in SI |-> Inv(Prec(scn.T, scn.sg, scn.stats[i]))]
@@ -131,6 +131,9 @@ SigmaOf(c, d, nT) ==
     THEN (IF "IVECTOR_SIGMA_DIV_ZERO_COUNT" \in Dev THEN NaN       \* 0/0, and NaN < floor is false
           ELSE RMax(scn.sg[c][d], Floor))                           \* no data: the covariance is kept
     ELSE RMax(RawSigma(c, d, nT), Floor)
+MScope == /\ \A c \in CI, t \in TI, u \in TI : Small(acc.nww[c][t][u], Ba)
+          /\ \A c \in CI, d \in DI, t \in TI : Small(acc.fw[c][d][t], Ba)
+          /\ \A c \in CI, d \in DI, t \in TI : Small(SolveT(c)[d][t], Bt)
 MStep(upd) ==
     /\ phase = "e" /\ phase' = "m" /\ scn.upd = upd /\ MScope
     /\ LET nT == [c \in CI |-> SolveT(c)]
